@@ -419,7 +419,9 @@ type wireChild struct {
 	done  chan struct{}
 	stdin io.WriteCloser
 	good  *framedConn
-	gseq  int // sequence number of the well-behaved peer's own periodic updates
+	gseq  int // sequence number of the well-behaved peers' own periodic updates
+	goodu *net.UDPConn // a second well-behaved peer, on the UDP listener (one receive goroutine serves all UDP peers)
+	uin   chan []byte
 }
 
 func startWireChild() (*wireChild, error) {
@@ -468,8 +470,30 @@ func startWireChild() (*wireChild, error) {
 	wc.good = g
 	_ = g.Send(ruJSON("good", 1, "good-hs0", map[string]string{"Connections": "{}"}))
 	_ = g.Send(ruJSON("good", 2, "good-hs1", nil))
+	u, err := net.DialUDP("udp", nil, &net.UDPAddr{IP: net.IPv4(127, 0, 0, 1), Port: wc.ports.UDP})
+	if err != nil {
+		return nil, err
+	}
+	wc.goodu, wc.uin = u, make(chan []byte, 1024)
+	go func(in chan []byte) {
+		buf := make([]byte, 65536)
+		for {
+			n, err := u.Read(buf)
+			if err != nil {
+				close(in)
+
+				return
+			}
+			select {
+			case in <- append([]byte(nil), buf[:n]...):
+			default:
+			}
+		}
+	}(wc.uin)
+	_, _ = u.Write(ruJSON("goodu", 1, "goodu-hs0", map[string]string{"Connections": "{}"}))
+	_, _ = u.Write(ruJSON("goodu", 2, "goodu-hs1", nil))
 	if !wc.probe(20 * time.Second) {
-		return nil, fmt.Errorf("well-behaved peer cannot ping the fresh child")
+		return nil, fmt.Errorf("well-behaved peers cannot ping the fresh child")
 	}
 
 	return wc, nil
@@ -486,6 +510,10 @@ func (wc *wireChild) alive() bool {
 
 // probe: the well-behaved peer pings the node (re-sending every 250 ms) and waits for an answer.
 func (wc *wireChild) probe(timeout time.Duration) bool {
+	return wc.probeTCP(timeout) && (wc.goodu == nil || wc.probeUDP(timeout))
+}
+
+func (wc *wireChild) probeTCP(timeout time.Duration) bool {
 	for len(wc.good.frames) > 0 {
 		<-wc.good.frames
 	}
@@ -523,7 +551,47 @@ func (wc *wireChild) probe(timeout time.Duration) bool {
 	}
 }
 
+// probeUDP: the same through the UDP listener.
+func (wc *wireChild) probeUDP(timeout time.Duration) bool {
+	for len(wc.uin) > 0 {
+		<-wc.uin
+	}
+	deadline := time.After(timeout)
+	for {
+		wc.gseq++
+		if _, err := wc.goodu.Write(ruJSON("goodu", 1000+wc.gseq, fmt.Sprintf("goodu-p%d", wc.gseq), nil)); err != nil {
+			return false
+		}
+		if _, err := wc.goodu.Write(peer.EncodeData(5, "goodu", "victim", "prb", "ping", nil)); err != nil {
+			return false
+		}
+		resend := time.After(250 * time.Millisecond)
+	wait:
+		for {
+			select {
+			case f, ok := <-wc.uin:
+				if !ok {
+					return false
+				}
+				d := peer.Decode(f)
+				if d.Data != nil && d.Data.FromService == "ping" && d.Data.ToService == "prb" {
+					return true
+				}
+			case <-resend:
+				break wait
+			case <-deadline:
+				return false
+			case <-wc.done:
+				return false
+			}
+		}
+	}
+}
+
 func (wc *wireChild) stop() {
+	if wc.goodu != nil {
+		_ = wc.goodu.Close()
+	}
 	if wc.good != nil {
 		wc.good.Close()
 	}
@@ -613,6 +681,15 @@ func cmdWire(args []string) {
 					seq++
 					sent = append(sent, b)
 					_ = c.Send(b)
+				}
+				if tr == "udp" {
+					// a UDP peer has no connection to lose: it keeps talking from the same address after the node has
+					// ended its session. The vector is extended by <<unknown_7e, unknown_7e>> (identity in Wire.tla).
+					for k := 0; k < 2; k++ {
+						b := []byte{0x7e, byte(k)}
+						sent = append(sent, b)
+						_ = c.Send(b)
+					}
 				}
 				all = append(all, sent...)
 				res.Evaluations++
